@@ -218,16 +218,15 @@ func partA6(e *env) {
 		n0.maxLib.b != nil && n1.maxLib.b != nil && !n0.maxLib.b.isAncestorOf(n1.maxLib.b) && !n1.maxLib.b.isAncestorOf(n0.maxLib.b)))
 }
 
-// A7 (observation, counted only — reported to the lead): receivers never validate the Confirms field. ONE producer lying in it
-// (p3 claims every block back to number 1 with each of its blocks) makes blocks irreversible together with ONE honest producer:
-// n = 4, only p0 (honest Confirms) and p3 ever produce; after 7 blocks the node reports LIB 4 although only 2 of 4 producers have
-// ever produced a block. With honest Confirms (A7h) the same schedule never moves the LIB. No property oracle here (nd.fault).
+// A7 (class C08-quorum-by-lying-confirms; Lean: Props.C08.quorum_false_lying_confirms_witness): receivers never validate the
+// Confirms field. ONE producer lying in it (p3 claims every block back to number 1 with each of its blocks) makes blocks
+// irreversible together with ONE honest producer: n = 4, only p0 (honest Confirms) and p3 ever produce; the node reports LIB 6
+// although only 2 of 4 producers have ever produced a block. With honest Confirms the same schedule never moves the LIB.
 func partA7(e *env) {
 	run := e.run
 	for _, lying := range []bool{true, false} {
 		w := e.world(run.Rng.Fork(), seqN(4))
 		nd := newNode(w, 1, e.realStore(w), &recorder{run: run})
-		nd.fault = true
 		parent := w.gblk
 		lpb := map[int]uint64{}
 		producers := map[int]bool{}
